@@ -3,7 +3,7 @@ import threading
 import time
 
 from checks import streams
-from checks.common import swarm
+from checks.common import swarm, exc_choice
 
 ID = 'C10'
 LEVEL = 'exploration'
@@ -27,7 +27,7 @@ def gen(rng, tier):
           'fork_delays': [[rng.choice([0, 0, 0, 0.001, 0.01, 0.05]) for _ in range(rng.choice([1, 2, 3]))] for _ in range(nf)],
           'src_delays': [rng.choice([0, 0, 0.001, 0.01])], 'start_delays': [rng.choice([0, 0, 0.001, 0.02]) for _ in range(nf)]}
     if rng.random() < 0.35:
-        sc['src_fail'] = {'pos': rng.randrange(0, n + 1), 'exc': rng.choice(['ExcA', 'ExcB', 'KeyError'])}
+        sc['src_fail'] = {'pos': rng.randrange(0, n + 1), 'exc': exc_choice(rng, ['ExcA', 'ExcB', 'KeyError'])}
     cfg = swarm(rng, racy=0.15, line=0.7, strategies=('random', 'weighted', 'weighted', 'weighted', 'pct', 'sticky'), max_time=300.0)
     if cfg.get('line_p'):
         cfg['line_p'] = rng.choice([0.05, 0.15, 0.3])
